@@ -673,8 +673,12 @@ func (c *FuncCtx) selectField(st *State, base *Val, name string, pos token.Pos) 
 	if obj == nil {
 		limitf("%s: no field %q in %s", c.eng.posStr(pos), name, base.T)
 	}
-	if _, isVar := obj.(*types.Var); !isVar {
-		limitf("%s: method value %q not supported", c.eng.posStr(pos), name)
+	if fn, isFn := obj.(*types.Func); isFn {
+		// method value: an opaque, non-nil func value
+		h := c.fresh("methodvalue_"+name, "Int")
+		st.assume(app("<", "0", h))
+		sig := fn.Type().(*types.Signature)
+		return &Val{T: types.NewSignatureType(nil, nil, nil, sig.Params(), sig.Results(), sig.Variadic()), S: h, Sort: "Int"}
 	}
 	cur := base
 	for _, idx := range path {
@@ -694,6 +698,13 @@ func (c *FuncCtx) fieldStep(st *State, cur *Val, idx int, pos token.Pos) *Val {
 			arr := c.heapArr(st, structName(el), f.Name(), f.Type())
 			r := c.val(mkSel(arr, cur.S), f.Type())
 			c.readFacts(st, r)
+			if f.Embedded() && c.eng.spec.WfNonNil && !c.inSpec(st) {
+				// wf: an embedded *Group / *Command of an existing object is set
+				// by its constructor and never nil
+				if p2, ok := under(f.Type()).(*types.Pointer); ok && c.eng.isHeapStruct(p2.Elem()) {
+					st.assume(app("<", "0", r.S))
+				}
+			}
 			return r
 		}
 		// pointer to a non-heap struct (immutable pointee) or foreign struct
@@ -916,8 +927,20 @@ func (c *FuncCtx) resolveSpecType(e ast.Expr) types.Type {
 
 func (c *FuncCtx) evalComposite(st *State, x *ast.CompositeLit, addr bool) *Val {
 	t := c.typeOf(x)
+	if t == nil && x.Type != nil {
+		t = c.resolveSpecType(x.Type)
+	}
 	if t == nil {
 		limitf("%s: composite literal without type information", c.eng.posStr(x.Pos()))
+	}
+	if n, ok := t.(*types.Named); ok && n.Obj().Pkg() != c.eng.pkg.Types {
+		// value of a foreign struct type: an opaque fresh handle
+		h := c.fresh("foreign_"+n.Obj().Name(), "Int")
+		if addr {
+			os := c.eng.sorts.opt("Int")
+			return &Val{T: types.NewPointer(t), S: app("some_"+os, h), Sort: os}
+		}
+		return &Val{T: t, S: h, Sort: "Int"}
 	}
 	switch u := under(t).(type) {
 	case *types.Struct:
